@@ -5,14 +5,16 @@
 set -u
 ID=$1; FILTER=$2; shift 2
 W=/tmp/mut/$ID
-export CARGO_TARGET_DIR=/tmp/mut/target_$ID CARGO_NET_OFFLINE=true RUST_BACKTRACE=0
+export CARGO_TARGET_DIR=/tmp/mut/target_confirm CARGO_NET_OFFLINE=true RUST_BACKTRACE=0
 cd $W || exit 2
+touch src/main.rs
 echo "== with change: full suite"
 cargo test --offline 2>&1 | grep -E "^test result|FAILED|failed" | head -8
 echo "== without change: demonstration"
 git apply -R _out/patch.diff || { echo "cannot reverse patch"; exit 2; }
 cargo test --offline $FILTER 2>&1 | grep -E "^test result|FAILED|failed" | head -5
 git apply _out/patch.diff
+unset CARGO_TARGET_DIR
 echo "== framework checks on /repo with the change"
 cd /repo && git apply $W/_out/patch.diff || { echo "patch does not apply to /repo"; exit 2; }
 cd /verif
